@@ -433,6 +433,23 @@ func TestVerif_C04(t *testing.T) {
 		}
 		return map[string]any{"pool": heads, "steps": ops, "goroutines": c.Goroutines}
 	}
+	if vfOnlySub("procfs") && !vfReplayMode() && vfShard() == 0 {
+		// the answer depends on the bytes, not on file metadata (stat size 0 on procfs)
+		n, err := vfProcfs(func(path string, content []byte, viaFile *MIME, derr error) error {
+			want := Detect(content)
+			if derr != nil || !c05Same(viaFile, want) {
+				return fmt.Errorf("DetectFile(%s) = (%s, %v) although the file delivers %d bytes on which Detect says %s", path, vfChainStr(viaFile), derr, len(content), vfChainStr(want))
+			}
+			return nil
+		})
+		var r vfResult
+		r.Nontrivial, r.Labels, r.Hash, r.Err = n > 0, []string{"procfs"}, vfHash([]byte("procfs")), err
+		vfStats.record(r, func() any { return map[string]any{"sub": "procfs", "files": n} })
+		if err != nil {
+			vfEnumFail(t, "C04", "tail", c04Tail{H: vfB("procfs")}, err)
+			return
+		}
+	}
 	if vfOnlySub("hist") {
 		vfRun(t, vfSub[c04Case]{Prop: "C04", Name: "hist", Checks: vfN(2500, 64000), Gen: c04Gen(false), Check: c04Check, Sample: sample})
 	}
@@ -449,6 +466,15 @@ func TestVerif_C04(t *testing.T) {
 		vfRun(t, vfSub[c04Tail]{Prop: "C04", Name: "tail", Checks: vfN(40000, 3000000), Check: c04TailCheck,
 			Gen: func(t *rapid.T) c04Tail {
 				h := vfGenAnyInput(t)
+				if rapid.IntRange(0, 39).Draw(t, "hugeheader") == 0 {
+					// headers (= limits) above 64 KiB, where growing read buffers change their step
+					kind := rapid.SampledFrom([]string{"json-array", "csv", "text-latin-tail", "filler"}).Draw(t, "hk")
+					h = vfBig(kind, rapid.SampledFrom([]int{65537, 70001, 100000, 300000}).Draw(t, "hn"))
+					if kind == "text-latin-tail" {
+						h = h[:len(h)-30] // keep the header ASCII; the tail decides nothing
+					}
+					return c04Tail{H: h, T1: vfB("\xe9\x85 tail one \x00\x01"), T2: vfB(rapid.SampledFrom([]string{"", "]", "plain", "\xff\xfe"}).Draw(t, "t2"))}
+				}
 				if rapid.Bool().Draw(t, "cutseed") && len(h) > 1 {
 					h = h[:rapid.IntRange(1, len(h)).Draw(t, "hl")]
 				}
